@@ -330,6 +330,37 @@ def generate(tier, seed, ctx):
         seq([m1(G, coarse, y1, y2, hy), m2(G, fine, x1, x2, y1, y2, gx, hy)])     # coarse call on the inner limits first
         seq([m1(G, coarse, x1, x2, gx), m2(G, fine, x1, x2, y1, y2, gx, hy)])     # ... on the outer limits first
         seq([m2(G, coarse, x1, x2, y1, y2, gx, hy), m2(G, fine, x1, x2, y1, y2, gx, hy), m1(G, fine, y1, y2, hy)])
+    # ---- Gauss-Kronrod with explicit bisection depths on sharp peaks (the depth must be honoured, not capped) -------
+    # Lorentzians 1/(1+((x-c)/w)^2), w = 1e-2 ... 1e-6 (heavy tails: the peak is seen at every level), peak inside / at the
+    # midpoint / at an edge, and Gaussians with sigma >= 1e-3 at the midpoint or an edge; depths {default,5,10,12,15,20,25}.
+    # The accuracy clause is judged where the depth suffices (see _gk_depth_needed); also in the Integrate_2D product clause.
+    K = "Gauss-Kronrod"
+    depths = [0, 5, 10, 12, 15, 20, 25]
+    for e in range(2, 7):
+        for d in depths:
+            a = round(rng.uniform(-1.0, -0.2), 3); b = round(rng.uniform(0.5, 1.5), 3)
+            w = 10.0 ** (-e + rng.uniform(-0.4, 0.4))
+            pos = rng.choice(["in", "mid", "lo", "hi"])
+            c = {"in": rng.uniform(a + 0.1, b - 0.1), "mid": (a + b) / 2, "lo": a, "hi": b}[pos]
+            if (e + d) % 3 == 0:
+                a, b = b, a
+            add("c13.fam1 %s %d %s %s %s" % (K, d, hx(a), hx(b), _famstr((1, 1.0 / (w * w), c, 0.0))),
+                cls="sharp-lorentz-%s" % pos, orient=int(a > b), pc=d)
+    for d in (10, 15, 25):
+        a = round(rng.uniform(-1.0, -0.2), 3); b = round(rng.uniform(0.5, 1.5), 3)
+        sg = 10.0 ** rng.uniform(-3, -2)
+        c = rng.choice([(a + b) / 2, a, b])
+        add("c13.fam1 %s %d %s %s %s" % (K, d, hx(a), hx(b), _famstr((2, c, sg, 0.0))), cls="sharp-gauss", orient=0, pc=d)
+    for t, (d, e) in enumerate(((15, 4), (20, 4), (12, 3), (20, 5)) if not thorough else ((15, 4), (20, 4), (12, 3), (20, 5), (25, 5), (15, 3), (25, 6), (10, 2))):
+        (x1, x2), (y1, y2) = _disjoint_pairs(rng, 2, rng.randrange(4))
+        w = 10.0 ** (-e + rng.uniform(-0.3, 0.3))
+        sharp_ax = t % 2
+        lo_, hi_ = (min(x1, x2), max(x1, x2)) if sharp_ax == 0 else (min(y1, y2), max(y1, y2))
+        fs_ = (1, 1.0 / (w * w), rng.uniform(lo_ + 0.05, hi_ - 0.05), 0.0)
+        fm_ = _fam(rng, y1, y2) if sharp_ax == 0 else _fam(rng, x1, x2)
+        g, h = (fs_, fm_) if sharp_ax == 0 else (fm_, fs_)
+        add("c13.fam2 %s %d %s %s %s %s 1 %s %s" % (K, d, hx(x1), hx(x2), hx(y1), hx(y2), _famstr(g), _famstr(h)),
+            cls="sharp-2d", orient=0, pc=d)
     # ---- Monte-Carlo front ends --------------------------------------------------------------------
     for m in MC:
         for t in range(2 * rep):
@@ -455,14 +486,62 @@ def _fam_ref(f, a, b):
         return _FAMCACHE[key]
     g = _mpfam(f)
     lo, hi = min(a, b), max(a, b)
-    I = mpmath.quad(g, [lo + (hi - lo) * i / 4 for i in range(5)])
     gf = _pyfam(f)
-    N = 400
-    A = sum(abs(gf(lo + (hi - lo) * (i + 0.5) / N)) for i in range(N)) * (hi - lo) / N
+    k, p0, p1, p2 = f
+    if k == 1 and p2 >= 0:      # closed form (exact also for sharp peaks): atan
+        rt = mpmath.sqrt(mpmath.mpf(p0))
+        I = (mpmath.atan(rt * (mpmath.mpf(hi) - p1)) - mpmath.atan(rt * (mpmath.mpf(lo) - p1))) / rt + mpmath.mpf(p2) * (mpmath.mpf(hi) - lo)
+        A = float(I)
+    elif k == 2 and p2 >= 0:    # closed form: erf
+        sg = mpmath.mpf(p1)
+        I = sg * mpmath.sqrt(mpmath.pi / 2) * (mpmath.erf((mpmath.mpf(hi) - p0) / (sg * mpmath.sqrt(2))) - mpmath.erf((mpmath.mpf(lo) - p0) / (sg * mpmath.sqrt(2)))) \
+            + mpmath.mpf(p2) * (mpmath.mpf(hi) - lo)
+        A = float(I)
+    else:
+        I = mpmath.quad(g, [lo + (hi - lo) * i / 4 for i in range(5)])
+        N = 400
+        A = sum(abs(gf(lo + (hi - lo) * (i + 0.5) / N)) for i in range(N)) * (hi - lo) / N
     S = (hi - lo) / 6 * (gf(lo) + 4 * gf((lo + hi) / 2) + gf(hi))
     r = ((I if b >= a else -I), mpmath.mpf(A), mpmath.mpf(abs(S)))
     _FAMCACHE[key] = r
     return r
+
+
+def _peak_width(f, a, b):
+    """(width of the peak, is it sharp relative to the interval) for the rational / Gaussian families"""
+    k, p0, p1, p2 = f
+    L = abs(b - a)
+    if k == 1:
+        w = 1 / math.sqrt(p0)
+    elif k == 2:
+        w = abs(p1)
+    else:
+        return None, False
+    return w, w < L / 64
+
+
+def _gk_depth_needed(f, a, b):
+    """Bisection levels a correct adaptive 31-point Gauss-Kronrod needs for the peak: a panel of half width H resolves
+    poles at distance w to ~1e-9 when H <= 2w (Bernstein ellipse rho = w/H + sqrt(1+(w/H)^2) >= 1.57, rho^-46 <= 1e-9),
+    i.e. panel width L/2^d <= 4w.  Accuracy is JUDGED from two levels beyond that (margin); below, the property's
+    clause 'accuracy at the requested depth' is not decidable without a model of Boost's error estimator."""
+    w, sharp = _peak_width(f, a, b)
+    if not sharp:
+        return 0
+    return max(0, math.ceil(math.log2(abs(b - a) / (4 * w))))
+
+
+def _judged(meth, p, fams, pairs, ctx):
+    """is the accuracy clause applicable to this request?  (Gauss-Kronrod on sharp peaks: only with enough depth)"""
+    need = max(_gk_depth_needed(f, x1, x2) for f, (x1, x2) in zip(fams, pairs))
+    if need == 0:
+        return True
+    if meth != "Gauss-Kronrod":
+        return False
+    depth = 5 if p == 0 else p
+    ok = depth >= need + 2
+    bump(ctx, "sharp-peak:judged" if ok else "sharp-peak:depth-too-small-not-judged")
+    return ok
 
 
 def _fams(tk, pos, n):
@@ -607,6 +686,8 @@ def compare(rq, impl, model, ctx):
                 out.append(fail("corr", "model value is not the exact integral (reference rule not exact?)", ""))
         else:
             f = _fams(a, 4, 1)[0]
+            if not _judged(m, p, [f], [(x1, x2)], ctx):
+                return out
             I, A, S = _fam_ref(f, x1, x2)
             ref = Fraction(float(I)) + Fraction(float(I - float(I))); sc = Fraction(float(A))
         d = abs(Fraction(v) - ref)
@@ -655,6 +736,8 @@ def compare(rq, impl, model, ctx):
             out.append(fail("corr", "model value is not the exact iterated integral (reference rule not exact?)", "%s vs %s" % (float(ref), float(ex))))
     else:
         fams = _fams(a, pos, dim)
+        if not _judged(m, p, fams, [(L[2 * i], L[2 * i + 1]) for i in range(dim)], ctx):
+            return out
         ref, sc = Fraction(1), Fraction(1)
         for f, (x1, x2) in zip(fams, [(L[2 * i], L[2 * i + 1]) for i in range(dim)]):
             I, A, S = _fam_ref(f, x1, x2)
